@@ -730,9 +730,11 @@ func (m *Machine) typeAssert(instr *ssa.TypeAssert, itf iface) value {
 func (m *Machine) rangeIter(fr *frame, x value, t types.Type) iter {
 	switch x := x.(type) {
 	case *smap:
+		// nondeterministic order only for range statements written in the
+		// named function itself (or a closure nested in it), not in callees
 		nd := false
-		for f := fr; f != nil; f = f.caller {
-			if m.nondetMapFns[f.fn.Name()] {
+		for fn := fr.fn; fn != nil; fn = fn.Parent() {
+			if m.nondetMapFns[fn.Name()] {
 				nd = true
 				break
 			}
